@@ -41,7 +41,11 @@ class Lock:
     def __enter__(self):
         os.makedirs(WORK, exist_ok=True)
         self.f = open(os.path.join(VERIF, ".lock"), "w")
-        fcntl.flock(self.f, fcntl.LOCK_EX)
+        if not os.environ.get("VERIF_NOLOCK"):     # debugging aid only; registered commands always lock
+            t0 = time.time()
+            fcntl.flock(self.f, fcntl.LOCK_EX)
+            if time.time() - t0 > 1:
+                log("[lock] waited %.0fs for another check" % (time.time() - t0))
         return self
 
     def __exit__(self, *a):
